@@ -327,6 +327,10 @@ func (st *State) assume(t string) {
 // ---- type ids ----
 
 func (x *Exec) typeId(t types.Type) string {
+	if m, ok := t.Underlying().(*types.Map); ok {
+		// named map types convert freely to and from their underlying type: the run-time identity of a map is map[K]V
+		t = m
+	}
 	k := types.TypeString(t, nil)
 	if id, ok := x.typeIds[k]; ok {
 		return intLit(int64(id))
@@ -360,6 +364,15 @@ func (x *Exec) zeroLeaf(l leaf) string {
 	case strings.HasPrefix(s, "(Array "):
 		// const array of zero element
 		es := arrayElemSort(s)
+		if es == "F32" || es == "F64" || es == "Str" {
+			// cvc5 wants a value inside (as const ...): use a named array constant with a defining axiom instead
+			name := "zeroarr." + mangle(s)
+			if _, ok := x.decls.set[name]; !ok {
+				x.decls.Const(name, s)
+				x.ensurePre(fmt.Sprintf("(forall ((i %s)) (! (= (select %s i) %s) :pattern ((select %s i))))", arrayIdxSort(s), name, x.zeroLeaf(leaf{sort: es}), name))
+			}
+			return name
+		}
 		return fmt.Sprintf("((as const %s) %s)", s, x.zeroLeaf(leaf{sort: es}))
 	}
 	panic("zeroLeaf: " + s)
@@ -501,6 +514,10 @@ func (x *Exec) assumeTyping(st *State, v Val) {
 		switch u := v.T.Underlying().(type) {
 		case *types.Pointer, *types.Map, *types.Chan:
 			st.assume(and(app("<=", "0", v.S), app("<=", v.S, st.alloc)))
+			if _, ok := u.(*types.Map); ok {
+				// type safety: a non-nil map value was made as a map[K]V
+				st.assume(implies(not(eq(v.S, "0")), eq(sel(x.typArr(st), v.S), x.typeId(u))))
+			}
 			if pt, ok := u.(*types.Pointer); ok {
 				if _, isStruct := pt.Elem().Underlying().(*types.Struct); isStruct {
 					if _, named := pt.Elem().(*types.Named); named {
